@@ -187,11 +187,6 @@ func doSearch(expr string, docText string, unordered bool) outcome {
 			if jmespath.VerifCanon(doc) != before {
 				o.flags = append(o.flags, "docmut2")
 			}
-		} else if !cp && (cerr != nil) != (err != nil && isCompileErr(expr)) {
-			// Search failed at compile time iff Compile fails
-			if cerr != nil && err == nil {
-				o.flags = append(o.flags, "compilediff")
-			}
 		}
 	}
 	if unordered {
@@ -200,10 +195,6 @@ func doSearch(expr string, docText string, unordered bool) outcome {
 	return o
 }
 
-func isCompileErr(expr string) bool {
-	_, err := jmespath.Compile(expr)
-	return err != nil
-}
 
 func doJSONDecode(text string) outcome {
 	var v interface{}
@@ -229,6 +220,8 @@ func doJSONEncode(canon string, indent bool) outcome {
 	}
 	return outcome{base: "ok " + hexField(string(out))}
 }
+
+var extraOps func(f []string) (outcome, bool)
 
 // execLine answers one protocol line.
 func execLine(line string) outcome {
@@ -261,6 +254,11 @@ func execLine(line string) outcome {
 		return doJSONEncode(f[1], true)
 	case f[0] == "A" && len(f) == 2:
 		return doAPISequence(f[1])
+	}
+	if extraOps != nil {
+		if o, ok := extraOps(f); ok {
+			return o
+		}
 	}
 	return outcome{base: "bad-request"}
 }
